@@ -2,7 +2,7 @@ package main
 
 func allSpecs() []*propSpec {
 	return []*propSpec{
-		{ID: "C01", Rules: []*Rule{rulePanicP1, rulePanicP2, rulePanicP3, ruleTermT1, ruleTermLEX},
+		{ID: "C01", Rules: []*Rule{rulePanicP1, rulePanicP2, rulePanicP3, rulePanicP6, ruleTermT1, ruleTermLEX},
 			NotCov: "index/slice/nil panics that depend on runtime values, stack depth proportional to input, bounded latency",
 			Assume: []string{"jrpc2 v0.13.1 does not recover handler panics (read from its source)", "VTA call graph complete for non-reflective calls"}},
 		{ID: "C10", Rules: []*Rule{ruleLock},
